@@ -24,6 +24,7 @@ meta = {
     },
     "caught_by": [] if caught == "none" else caught.split(","),
     "note": note,
+    "confirmed_on_repo_commit": os.popen("git -C /repo log -1 --format=%h").read().strip(),
 }
 json.dump(meta, open(os.path.join(dest, "meta.json"), "w"), indent=1)
 print("kept", dest)
